@@ -428,11 +428,15 @@ pub struct ValueCfg {
     pub cap_open_types: bool,
     /// set while generating inside an open type under `cap_open_types`: hard limit for sizes
     pub hard_limit: Option<usize>,
+    /// C01 only ("if encoding succeeds ..."): now and then one character of a restricted
+    /// character string is replaced by a character outside its alphabet whose low 8 or 7 bits are
+    /// inside it - the encoder must refuse it, and if it does not, the round trip shows it
+    pub foreign_chars: bool,
 }
 
 impl Default for ValueCfg {
     fn default() -> Self {
-        ValueCfg { big_weight: 2, max_big: 70000, max_big_elems: 70000, conformance: true, out_of_root: true, cap_open_types: false, hard_limit: None }
+        ValueCfg { big_weight: 2, max_big: 70000, max_big_elems: 70000, conformance: true, out_of_root: true, cap_open_types: false, hard_limit: None, foreign_chars: false }
     }
 }
 
@@ -693,6 +697,9 @@ fn string_values(cs: Charset, size: &Option<Size>, cfg: ValueCfg) -> BoxedStrate
     let first = alpha[0];
     let last = *alpha.last().unwrap();
     let max_big = if cs == Charset::Utf8 { cfg.max_big } else { cfg.max_big_elems };
+    // outside every restricted alphabet, but the low octet / low seven bits are a letter, a digit, a blank or NUL
+    const FOREIGN: [char; 8] = ['\u{141}', '\u{c1}', '\u{130}', '\u{b0}', '\u{120}', '\u{ff21}', '\u{100}', '\u{1F600}'];
+    let foreign = cfg.foreign_chars && cs != Charset::Utf8;
     (size_values(size, cfg, true, max_big), any::<u64>(), 0..4u8).prop_map(move |(n, seed, mode)| {
         let mut st = String::with_capacity(n);
         let mut x = seed | 1;
@@ -701,6 +708,7 @@ fn string_values(cs: Charset, size: &Option<Size>, cfg: ValueCfg) -> BoxedStrate
             x ^= x >> 7;
             x ^= x << 17;
             let c = match (mode, i) {
+                (3, _) if foreign && seed % 8 == 0 && i == (seed >> 8) as usize % n => FOREIGN[(seed >> 24) as usize % FOREIGN.len()],
                 (0, 0) => first,
                 (0, _) if i + 1 == n => last,
                 (1, _) => last,
